@@ -3,22 +3,26 @@ use crate::engine::{run_property, Opts};
 pub mod adcommon;
 pub mod c01;
 pub mod c02;
+pub mod c03;
 pub mod c04;
 pub mod c05;
 pub mod c06;
 pub mod c07;
 pub mod c08;
+pub mod c17;
 
 /// Run the check of property `id`; None if no such check exists.
 pub fn dispatch(id: &str, opts: &Opts) -> Option<i32> {
     Some(match id {
         "C01" => run_property(&c01::C01, opts),
         "C02" => run_property(&c02::C02, opts),
+        "C03" => run_property(&c03::C03, opts),
         "C04" => run_property(&c04::C04, opts),
         "C05" => run_property(&c05::C05, opts),
         "C06" => run_property(&c06::C06, opts),
         "C07" => run_property(&c07::C07, opts),
         "C08" => run_property(&c08::C08, opts),
+        "C17" => run_property(&c17::C17, opts),
         _ => return None,
     })
 }
